@@ -35,4 +35,5 @@ def run(ctx, rep):
     rep.run(RF.rule_memo_key_complete, ctx, rep, "M8", packages=("gtwrap/matlab_wrapper",), min_functions=50)
     rep.run(RM.rule_overload_data_from_overload, ctx, rep, "M9")
     rep.run(RM.rule_callee_spelling, ctx, rep, "M10")
+    rep.run(RM.rule_copy_exactly_for_values, ctx, rep, "M11")
     rep.run(RF.rule_locals_defined, ctx, rep, "U1", packages=("gtwrap/matlab_wrapper",), min_functions=3)
